@@ -7,3 +7,4 @@ pub mod kernel;
 pub mod panics;
 pub mod props;
 pub mod sched;
+pub mod ship;
